@@ -54,7 +54,7 @@ theorem C13_old_seed_counterexample (n : ℕ) :
 /-- Tie B: the values `TDGLSolver.solve` gives to "induced_vector_potential" before the stages run, with their conditions,
     are exactly the three branches of `initialInduced`. -/
 theorem C13_bridge_seed_start :
-    pin_seed_induced = "seed_solution is None: np.zeros((num_edges, 2)) ; not (seed_solution is None): seed_data.induced_vector_potential ; not (seed_solution is None) and not options.include_screening: np.zeros((num_edges, 2))" := by
+    pin_seed_induced = "seed_solution is None: np.zeros((num_edges, 2)) ; not (seed_solution is None) and not (seed_solution.device != device): seed_data.induced_vector_potential ; not (seed_solution is None) and not (seed_solution.device != device) and not options.include_screening: np.zeros((num_edges, 2))" := by
   rfl
 
 end Tdgl.C13
